@@ -364,7 +364,7 @@ static int c07_math(const char* fn, const char* sizefn, buf_t st, size_t size, i
 		for (i = 0; i < no; ++i) mod[i] = (octet)rnd();
 		if (mod[no - 1] == 0) mod[no - 1] = 1;
 		if (kind == 1) { if (no % O_PER_W || no < 2 * O_PER_W) { free(mod); return 0; } memset(mod + O_PER_W, 0xFF, no - O_PER_W); mod[0] |= 1; }
-		if (kind == 3 || kind == 5 || kind == 1 || kind == 6) mod[0] |= 1;
+		mod[0] |= 1;      /* odd modulus: inversion/division of units is defined for every ring kind */
 		if (kind == 5) { /* gfpCreate wants an odd modulus > 1; primality is not required for the size logic but ops assume a field: use a prime where cheap */
 			if (no == 32) { static const char p256[] = "43ffffffffffffffffffffffffffffffffffffffffffffffffffffffffffffff"; int k; memset(mod, 0xFF, 32); mod[0] = 0x43; (void)p256; (void)k; } }
 		if (no == 1 && mod[0] < 3) mod[0] = 3;
